@@ -379,6 +379,28 @@ example : ∃ routine : List Code, ∀ (args : List Word) (fuel : Nat),
     C06_loopProg_int true 0 body routine 2 hcomp hrout {} cfgCC_default _
     (by simp [List.map_map, Function.comp]) args fuel⟩
 
+/-- … and started with n = 3, acc = 0 (a terminating run) every amount of fuel gives an allowed result -/
+example : ∃ routine : List Code, ∀ fuel' : Nat,
+    C13_allowed (Ref.runItems (routine.map fun c => (c, 0)) [3, 0] fuel' {}).res := by
+  have hok : ∃ r, compileX86 C06_loopProg true 0 = .ok r := ⟨_, rfl⟩
+  obtain ⟨⟨body, nargs⟩, hcomp⟩ := hok
+  have hnargs : nargs = 2 := by
+    have : compileX86 C06_loopProg true 0 = .ok ((compileX86 C06_loopProg true 0 |>.toOption.getD ([], 0)).1, 2) := rfl
+    rw [hcomp] at this
+    injection this with this
+    injection this
+  subst hnargs
+  have hok2 : ∃ r, intoRoutine body 2 = .ok r := by
+    have : ∃ moves, moveArguments 2 = .ok moves := ⟨_, rfl⟩
+    obtain ⟨moves, hm⟩ := this
+    exact ⟨_, by unfold intoRoutine; rw [setup_eq 2 moves hm]⟩
+  obtain ⟨routine, hrout⟩ := hok2
+  have hrun : Pos.run C06_loopProg [3, 0] 40 = ⟨[(true, 6)], .done 6⟩ := by decide
+  exact ⟨routine, C13_int_terminating C06_loopProg [3, 0] true body routine 2 C06_loopDef
+    (by decide) (linTypedCheck_sound C06_loopProg rfl) C06_loopProg_int C06_loopProg_inRange hcomp hrout rfl
+    (Scc.Props.C06Generic.capacity_of_run C06_loopProg 40 _ (by decide) (by decide)) 40 _ _ hrun {}
+    Ref.machOK_default rfl (routine.map fun c => (c, 0)) (by simp [List.map_map, Function.comp])⟩
+
 end Scc.X86
 
 #print axioms Scc.X86.C13_static_shape
